@@ -103,8 +103,8 @@ class History:
                 elif k == "rebuild":
                     v = s["v"]
                     st_ = self.stmt[v]
-                    if st_ is None:
-                        return
+                    if st_ is None or any(not self.alive[j] for j in st_["args"]):
+                        return  # nothing to rebuild from (persisted result, or an operand was dropped)
                     x = P.OPS[st_["op"]].da(st_, [self.da[j] for j in st_["args"]])
                     self.da.append(x)
                     self.np.append(self.np[v])
@@ -238,11 +238,16 @@ def history_st(draw, max_steps):
     fams = P.ops_by_family()
     fw = dict(P.FAMILY_WEIGHTS)
     nsteps = D_.int(4, max_steps)
+    tree_seen, unify_seen = [False], [False]
     for _ in range(nsteps):
         alive = [i for i, a in enumerate(h.alive) if a]
         built = [i for i in alive if i >= len(leaves)]
         kind = D_.weighted([("build", 8), ("compute", 6 if built else 0), ("compute_many", 2 if len(built) >= 2 else 0), ("optimize", 2 if built else 0), ("graph", 2 if built else 0), ("persist", 1 if built else 0), ("rebuild", 2 if built else 0), ("drop", 2 if built else 0)])
         cfg = draw_cfg(D_)
+        if tree_seen[0] and "KF-matmul-tree-depth-config-drift" in exclusions._open_ids():
+            cfg = {k: v for k, v in cfg.items() if not k.startswith("array.unify-chunks")}
+        if any(k.startswith("array.unify-chunks") for k in cfg):
+            unify_seen[0] = True
         if kind == "build":
             fam = D_.weighted([(f, fw[f]) for f in sorted(fams) if fw.get(f, 0) > 0])
             name = D_.choice(fams[fam])
@@ -269,8 +274,14 @@ def history_st(draw, max_steps):
                     continue
             except Exception:
                 pass
-            if s["op"] == "matmul" and "split_every" in cfg and "KF-matmul-tree-depth-config-drift" in exclusions._open_ids():
-                cfg = {k: v for k, v in cfg.items() if k != "split_every"}  # region of a listed finding
+            if s["op"] in TREE_OPS and "KF-matmul-tree-depth-config-drift" in exclusions._open_ids():
+                # region of a listed finding: a tree reduction with a non-default fan-in (keyword or
+                # config) in a history that also changes chunk unification
+                if unify_seen[0]:
+                    cfg = {k: v for k, v in cfg.items() if k != "split_every"}
+                    s.pop("split_every", None)
+                elif "split_every" in cfg or "split_every" in s:
+                    tree_seen[0] = True
             step = {"k": "build", "stmt": s, "cfg": cfg}
         elif kind == "compute_many":
             step = {"k": kind, "vs": D_.subset(built, 2, 3), "cfg": cfg}
@@ -289,9 +300,12 @@ def history_st(draw, max_steps):
 def region_matmul_split_every(case):
     """A matmul built while a `split_every` configuration is in effect (its reduction-tree depth is
     frozen from the construction-time block count) in a history that also changes chunk unification."""
-    built = any(s["k"] == "build" and s["stmt"]["op"] == "matmul" and "split_every" in s.get("cfg", {}) for s in case["steps"])
+    built = any(s["k"] == "build" and s["stmt"]["op"] in TREE_OPS and ("split_every" in s.get("cfg", {}) or "split_every" in s["stmt"]) for s in case["steps"])
     unify = any(any(k.startswith("array.unify-chunks") for k in s.get("cfg", {})) for s in case["steps"])
     return built and unify
+
+
+TREE_OPS = set(P.REDUCTIONS) | {"matmul", "tensordot", "wsum"}
 
 
 def _register():
